@@ -136,9 +136,12 @@ def run(ctx):
     ctx.analysed(w.path)
     wf = Flow(w.body)
     inner = [s for s in call_sites(w, lambda p, c: p.startswith(BW + "::") and p != BW + "::write")]
+    # the helper that emits the write may have been folded into write(): then the ObjectWriter::write call itself is the site
+    direct_w = [s for s in call_sites(w, lambda p, c: norm_path(c["path"]) == "receiver::writer::ObjectWriter::write")]
+    inner = inner + direct_w
     n = 0
     for s in inner:
-        if not typestate_emits_write(prog, s.term.callee_path()):
+        if s not in direct_w and not typestate_emits_write(prog, s.term.callee_path()):
             continue
         n += 1
         fs = wf.facts_at(s.bb)
@@ -163,7 +166,7 @@ def run(ctx):
     for a in acc:
         if a["kind"] == "assign":
             # increment only after the data was written: dominated by the inner write calls
-            wbbs = set(s.bb for s in inner if typestate_emits_write(prog, s.term.callee_path()))
+            wbbs = set(s.bb for s in inner if s in direct_w or typestate_emits_write(prog, s.term.callee_path()))
             ok, _w = wf.must_pass(0, [a["bb"]], lambda n: n[0] == "b" and n[1] in wbbs)
             # and leads to Ok(true)
             if ok:
@@ -223,12 +226,14 @@ def byte_accounting(ctx, rule):
     wf = Flow(w.body)
     sl = Slicer(w.body)
     vd = sl.var_defs()
-    inner = [s for s in call_sites(w, lambda p, c: p in (BW + "::write_pkt_cenc_null", BW + "::decode_write_pkt"))]
+    inner = [s for s in call_sites(w, lambda p, c: p in (BW + "::write_pkt_cenc_null", BW + "::decode_write_pkt") or
+                                       norm_path(c["path"]) == "receiver::writer::ObjectWriter::write")]
     if not inner:
         raise model.AnchorMissing("BlockWriter::write does not call write_pkt_cenc_null / decode_write_pkt")
     handed = set()
     for s in inner:
-        arg = strip_ref(s.expr[2][1])
+        # write_pkt_cenc_null(&mut self, data, ..) / decode_write_pkt(&mut self, data, ..) ; ObjectWriter::write(&self, sbn, data, now)
+        arg = strip_ref(s.expr[2][2 if norm_path(s.term.callee()["path"]) == "receiver::writer::ObjectWriter::write" else 1])
         key = "BlockWriter::write -> %s data trimmed to bytes_left" % s.term.callee_path().split("::")[-1]
         if arg[0] != "var" or arg[2]:
             rule.violation(key, "the data argument is %s" % show(arg, 60), s.loc)
